@@ -733,9 +733,11 @@ def classify_elif(family, shape, norm, code, trig):
             raise
         except Exception:
             return None
-    if canonical(code2) == canonical(code):
-        return None         # the modelled deviation does not touch it
-    v2 = load(code2)
+        if canonical(code2) == canonical(code):
+            return None     # the modelled deviation does not touch it
+        # (loaded while the World is open: a program with an array-map
+        # variable refers to a map descriptor that the World closes)
+        v2 = load(code2)
     if v2 is None:
         return KF_ELIF
     if "exit-then-else" in trig and norm != "unreachable insn N" and \
